@@ -46,11 +46,16 @@ use super::*;
 use pre::*;
 
 #[verifier::external_type_specification] pub struct ExUndeclaredFixture(UndeclaredFixture);
+#[verifier::external_type_specification] pub struct ExFixtureCycle(FixtureCycle);
+//@item src/fixtures/mod.rs struct EditableInstall
 
-//@dbstruct_arc definitions file_definitions usages usage_by_fixture definitions_version file_cache undeclared_fixtures imports plugin_fixture_files
+// v2: EVERY field of the database except ast_cache, so that the frame of scan_function_body_for_undeclared_fixtures
+// (`only undeclared_fixtures changes`, struct-update clause added to its @sig) is PROVED for the memo tables and the
+// environment fields too (same_rest: prelude/undecl_dbspecs_v2.rs)
+//@dbstruct_arc definitions file_definitions usages usage_by_fixture definitions_version file_cache undeclared_fixtures imports canonical_path_cache line_index_cache cycle_cache available_fixtures_cache imported_fixtures_cache site_packages_paths editable_install_roots workspace_root plugin_fixture_files
 
 //@include prelude/index_dbspecs.rs
-//@include prelude/undecl_dbspecs.rs
+//@include prelude/undecl_dbspecs_v2.rs
 
 broadcast use {axiom_string_to_string, axiom_identifier_to_string, axiom_default_vec};
 
@@ -1131,6 +1136,8 @@ impl FixtureDatabase {
         final(self).definitions_version == old(self).definitions_version,
         final(self).file_cache == old(self).file_cache, final(self).imports == old(self).imports,
         final(self).plugin_fixture_files == old(self).plugin_fixture_files,
+        // v2: NOTHING but undeclared_fixtures changes (whatever other fields the database struct of the reader has)
+        *final(self) == (FixtureDatabase { undeclared_fixtures: final(self).undeclared_fixtures, ..*old(self) }),
         final(self).undeclared_fixtures.m().remove(pbv(file_path)) == old(self).undeclared_fixtures.m().remove(pbv(file_path)),
         undecl_view(final(self).undeclared_fixtures.m()) == push_undecl(undecl_view(old(self).undeclared_fixtures.m()), pbv(file_path),
             scan_fn(body@, pbv(file_path), line_index@, declared_params.s(), function_name@, function_line,
@@ -1191,6 +1198,8 @@ impl FixtureDatabase {
         final(self).definitions_version == old(self).definitions_version,
         final(self).file_cache == old(self).file_cache, final(self).imports == old(self).imports,
         final(self).plugin_fixture_files == old(self).plugin_fixture_files,
+        // v2: NOTHING but undeclared_fixtures changes (whatever other fields the database struct of the reader has)
+        *final(self) == (FixtureDatabase { undeclared_fixtures: final(self).undeclared_fixtures, ..*old(self) }),
         final(self).undeclared_fixtures.m().remove(pbv(file_path)) == old(self).undeclared_fixtures.m().remove(pbv(file_path)),
         undecl_view(final(self).undeclared_fixtures.m()) == push_undecl(undecl_view(old(self).undeclared_fixtures.m()), pbv(file_path),
             scan_fn(body@, pbv(file_path), line_index@, declared_params.s(), function_name@, function_line,
